@@ -71,7 +71,7 @@ var tokRe = regexp.MustCompile(`"""(?s:.*?)"""|"(?:\\.|[^"\\\n])*"|\.\.\.|[A-Za-
 
 var tokenPool = []string{"{", "}", "(", ")", "[", "]", ":", "!", "=", "@", "$", "...", "|", "&", ",", "on", "fragment", "query", "mutation",
 	"subscription", "true", "false", "null", "int", "intNN", "obj", "objNN", "node", "u", "list", "listNN", "nodesNN", "args", "req", "Obj", "A", "B",
-	"Entity", "U", "In", "Color", "Int", "String", "RED", "skip", "include", "if", "tag", "__typename", "__schema", "__type", "name", "i", "in", "l", "ll", "x", "y",
+	"Entity", "U", "In", "Color", "Int", "String", "RED", "skip", "include", "if", "tag", "__typename", "__schema", "__type", "name", "fields", "enumValues", "includeDeprecated", "(includeDeprecated: null)", "(includeDeprecated: $v)", "(name: null)", "(name: $x)", "inputFields", "ofType", "args", "defaultValue", "i", "in", "l", "ll", "x", "y",
 	"2147483647", "2147483648", "-2147483649", "-0", "0", "1e400", "9223372036854775808", "1.5", "00", "1.", ".5", "-", "1e", "0x1F",
 	`""`, `"a"`, `"\u0000"`, `"\uD800"`, `"\uZZZZ"`, `"\x"`, `"unterminated`, `""""""`, `"""a\"""b"""`, `"""`, "#c\n", "\ufeff", "\r", "\u2028", "\x00", "\xff", "\xc3", "\ufffd", "é", "😀",
 	"$v", "$w", "$i", "$in", "$x", "$undefined", "query($v: Obj = 1)", "($q: [Obj!] = [{int: 1}])", "$v: Entity = {id: 1}", "$e: Color = 1", "$u: U", "= 1", "= {b: 1}", "= [[1]]", ": Obj", ": [U!]!", "F", "G", "...F", "... on Obj", "... on Entity", "@skip(if: $v)", "@include(if: null)", "@skip", "@tag(n: $i)", "(x: null)", "(i: $in)", "[$i]", "{a: $i}", "{b: null}"}
@@ -319,8 +319,42 @@ func genCase(seed int64, idx int) Case {
 	case 1:
 		c.Vars = `{}`
 	default:
+		// half of the time every variable gets a value that fits its declared type (or an explicit null, or is
+		// left out): combinations such as "nullable with a default, sent as null" are then common, not 1 in 35
+		declared := map[string]string{}
+		for _, m := range regexp.MustCompile(`\$([A-Za-z_][A-Za-z_0-9]*)\s*:\s*(\[*)\s*([A-Za-z_][A-Za-z_0-9]*)`).FindAllStringSubmatch(q, 40) {
+			declared[m[1]] = m[2] + m[3]
+		}
+		fitting := r.Bool()
 		parts := []string{}
 		for _, n := range sorted {
+			if fitting && declared[n] != "" {
+				var pool []string
+				switch declared[n] {
+				case "Boolean":
+					pool = []string{"true", "false", "null", "null"}
+				case "Int":
+					pool = []string{"0", "1", "2", "-1", "null", "2147483647"}
+				case "Float":
+					pool = []string{"0", "1.5", "null", "1e300"}
+				case "String", "ID":
+					pool = []string{`""`, `"x"`, `"Obj"`, "null"}
+				case "Color":
+					pool = []string{`"RED"`, `"GREEN"`, "null"}
+				case "In":
+					pool = []string{`{"b":"s"}`, `{"b":"x","e":{"b":"y"}}`, "null"}
+				default:
+					if strings.HasPrefix(declared[n], "[") {
+						pool = []string{"[]", "null", "[null]", "[1]", `["x"]`, "1"}
+					} else {
+						pool = jsonPool
+					}
+				}
+				if !r.Chance(1, 4) {
+					parts = append(parts, strconv.Quote(n)+":"+hx.Pick(r, pool))
+				}
+				continue
+			}
 			if r.Chance(4, 5) {
 				parts = append(parts, strconv.Quote(n)+":"+hx.Pick(r, jsonPool))
 			}
